@@ -8,9 +8,12 @@ V=${VERIF_DIR:-/verif}
 ID="$1"; STREAM="$2"; RUNS="$3"; MAXLEN="$4"
 SEED=${VERIF_SEED:-1}
 WORKERS=${VCHECK_FUZZ_WORKERS:-8}
-BIN="$V/target/x86_64-unknown-linux-gnu/release/tape"
-(cd "$V/harness" && CARGO_NET_OFFLINE=true cargo +nightly fuzz build tape >"$V/target/fuzz-build.log" 2>&1) || { echo "INCONCLUSIVE property=$ID fuzz target does not build (target/fuzz-build.log)"; exit 2; }
-[ -x "$BIN" ] || BIN=$(find "$V/target" "$V/harness/fuzz/target" -name tape -type f -perm -u+x 2>/dev/null | head -1)
+# Optimised build without AddressSanitizer and without debug assertions: the tested code is safe
+# Rust, and with cargo-fuzz's defaults one execution of a program-level stream costs a second
+# (measured: 1.6 exec/s against 30 exec/s per worker, 700 MB against 40 MB resident).
+BIN="$V/target/fuzz-fast/x86_64-unknown-linux-gnu/release/tape"
+(cd "$V/harness" && CARGO_NET_OFFLINE=true cargo +nightly fuzz build -O -s none --target-dir "$V/target/fuzz-fast" tape >"$V/target/fuzz-build.log" 2>&1) || { echo "INCONCLUSIVE property=$ID fuzz target does not build (target/fuzz-build.log)"; exit 2; }
+[ -x "$BIN" ] || BIN=$(find "$V/target/fuzz-fast" -name tape -type f -perm -u+x 2>/dev/null | head -1)
 [ -x "$BIN" ] || { echo "INCONCLUSIVE property=$ID fuzz binary not found"; exit 2; }
 CORPUS="$V/target/fuzz-corpus/$ID-$STREAM"; ART="$V/target/fuzz-artifacts/$ID-$STREAM"
 rm -rf "$CORPUS" "$ART"; mkdir -p "$CORPUS" "$ART"
